@@ -425,16 +425,18 @@ pub fn run_c10(ctx: &mut Ctx) -> (String, Value, Vec<String>) {
         check_model(ctx, "arrival::Sporadic::from(Periodic)", &spec, &Aut::of(&spec).unwrap(), h, true, &mut st, &mut samples);
         models += 3;
     }
-    if !quick {
+    {
         // larger parameters (the automata stay small: T + J states)
-        for (t, j) in [(13u64, 0u64), (13, 40), (27, 7), (27, 120), (50, 49), (50, 333), (97, 100)] {
+        let big: Vec<(u64, u64)> = if quick { vec![(13, 40), (27, 7), (50, 120)] } else { vec![(13, 0), (13, 40), (27, 7), (27, 120), (50, 49), (50, 333), (97, 100)] };
+        for (t, j) in big {
             let spec = ArrSpec::Sporadic { t, j };
             check_model(ctx, "arrival::Sporadic", &spec, &Aut::of(&spec).unwrap(), 400, true, &mut st, &mut samples);
             let spec = ArrSpec::Jitter { inner: Box::new(ArrSpec::Periodic { t }), j };
             check_model(ctx, "clone_with_jitter", &spec, &Aut::of(&spec).unwrap(), 400, true, &mut st, &mut samples);
             models += 2;
         }
-        for pf in [vec![0u64, 17, 30], vec![5, 5, 21, 22], vec![3, 21], vec![0, 0, 12, 26], vec![7, 14, 21, 28]] {
+        let bigpf: Vec<Vec<u64>> = if quick { vec![vec![0, 17, 30], vec![3, 21], vec![1, 2, 4, 6, 9, 11]] } else { vec![vec![0, 17, 30], vec![5, 5, 21, 22], vec![3, 21], vec![0, 0, 12, 26], vec![7, 14, 21, 28], vec![1, 2, 4, 6, 9, 11], vec![2, 4, 9, 13, 20, 25, 33, 40]] };
+        for pf in bigpf {
             let spec = ArrSpec::Curve { dmin: pf.clone() };
             let aut = Aut::of(&spec).unwrap();
             check_model(ctx, "arrival::Curve", &spec, &aut, 300, false, &mut st, &mut samples);
